@@ -1,9 +1,22 @@
 import CircusProofs.Core.Generic
 /-!
 Invariants that do not care about the exclusive slot or about which callbacks a top-level future
-carries: they get their `Spec` from plain writer lemmas.
+carries: they get their `Spec` from plain writer lemmas.  `LeafYR`/`LeafXR` sit on the weak chain
+(`LeafR`: no `setStatus … .stopped`, no `spawnAdopt`, no `setClosed`; the places that need them are
+given separately to `SpecCoreR.ofLeafYR` / `SpecR.ofLeafXR`), `LeafY`/`LeafX` on the full one.
 -/
 namespace Circus.Core
+
+structure LeafYR (I : State → Prop) : Prop extends LeafR I where
+  setSlot : ∀ v, Pres I (setSlot v)
+  pushTop : ∀ t, Pres I (pushTop t)
+  finishTop : ∀ t v, Pres I (finishTop t v)
+  topAddCb : ∀ t cb, Pres I (topAddCb t cb)
+  enqueue : ∀ r, Pres I (enqueue r)
+  dequeue : Pres I dequeue
+
+structure LeafXR (I : State → Prop) : Prop extends LeafYR I where
+  emitRep : ∀ c i a b d, Pres I (emitRep c i a b d)
 
 structure LeafY (I : State → Prop) : Prop extends Leaf I where
   setSlot : ∀ v, Pres I (setSlot v)
@@ -17,8 +30,8 @@ structure LeafY (I : State → Prop) : Prop extends Leaf I where
 structure LeafX (I : State → Prop) : Prop extends LeafY I where
   emitRep : ∀ c i a b d, Pres I (emitRep c i a b d)
 
-attribute [aesop safe apply (rule_sets := [Pres])] LeafX.emitRep LeafY.setSlot LeafY.pushTop LeafY.finishTop LeafY.topAddCb
-  LeafY.enqueue LeafY.dequeue LeafX.toLeafY LeafY.toLeaf
+attribute [aesop safe apply (rule_sets := [Pres])] LeafXR.emitRep LeafYR.setSlot LeafYR.pushTop LeafYR.finishTop LeafYR.topAddCb
+  LeafYR.enqueue LeafYR.dequeue LeafXR.toLeafYR LeafYR.toLeafR
 
 section
 variable {I : State → Prop}
@@ -26,17 +39,17 @@ variable {I : State → Prop}
 macro "presx" : tactic =>
   `(tactic| aesop (rule_sets := [Pres]) (config := { terminal := true, useDefaultSimpSet := false, useSimpAll := false, maxRuleApplications := 3000 }))
 
-theorem runTopCb_pres (X : LeafX I) (v : Val) (cb : TopCb) : Pres I (runTopCb v cb) := by
-  have L := X.toLeaf
-  have hsr := sendReply_pres L X.emitRep
+theorem runTopCb_presR (X : LeafXR I) (v : Val) (cb : TopCb) : Pres I (runTopCb v cb) := by
+  have L := X.toLeafR
+  have hsr := sendReply_presR L X.emitRep
   cases cb <;> simp only [runTopCb] <;> presx
 
-theorem newTop_pres (X : LeafY I) (cbs : List TopCb) : Pres I (newTop cbs) := by
-  have L := X.toLeaf
+theorem newTop_presR (X : LeafYR I) (cbs : List TopCb) : Pres I (newTop cbs) := by
+  have L := X.toLeafR
   unfold newTop; presx
 
-theorem deliverCbs_pres (X : LeafY I) (armed : Bool) (v : Val) (cbs : List TopCb) : Pres I (deliverCbs armed v cbs) := by
-  have L := X.toLeaf
+theorem deliverCbs_presR (X : LeafYR I) (armed : Bool) (v : Val) (cbs : List TopCb) : Pres I (deliverCbs armed v cbs) := by
+  have L := X.toLeafR
   have h : Pres I (runTopCb v TopCb.release) := by simp only [runTopCb]; exact X.setSlot _
   induction cbs with
   | nil => unfold deliverCbs; presx
@@ -45,34 +58,34 @@ theorem deliverCbs_pres (X : LeafY I) (armed : Bool) (v : Val) (cbs : List TopCb
     aesop (add safe apply h, safe apply ih) (rule_sets := [Pres])
       (config := { terminal := true, useDefaultSimpSet := false, useSimpAll := false, maxRuleApplications := 3000 })
 
-theorem deliverTop_pres (X : LeafY I) (tid : Nat) (v : Val) : Pres I (deliverTop tid v) := by
-  have L := X.toLeaf
-  have h := deliverCbs_pres X
+theorem deliverTop_presR (X : LeafYR I) (tid : Nat) (v : Val) : Pres I (deliverTop tid v) := by
+  have L := X.toLeafR
+  have h := deliverCbs_presR X
   unfold deliverTop
   aesop (add safe apply h) (rule_sets := [Pres]) (config := { terminal := true, useDefaultSimpSet := false, useSimpAll := false, maxRuleApplications := 3000 })
 
-theorem addDoneCallback_pres (X : LeafY I) (tid : Nat) (cb : TopCb) : Pres I (addDoneCallback tid cb) := by
-  have L := X.toLeaf
+theorem addDoneCallback_presR (X : LeafYR I) (tid : Nat) (cb : TopCb) : Pres I (addDoneCallback tid cb) := by
+  have L := X.toLeafR
   unfold addDoneCallback; presx
 
-theorem syncCoroutine_presx (X : LeafY I) (he : ∀ n t, Pres I (exec n t)) (name : String) (c : Call) (extra : List TopCb) :
+theorem syncCoroutine_presxR (X : LeafYR I) (he : ∀ n t, Pres I (exec n t)) (name : String) (c : Call) (extra : List TopCb) :
     Pres I (syncCoroutine name c extra) := by
-  have L := X.toLeaf
-  have h := newTop_pres X
+  have L := X.toLeafR
+  have h := newTop_presR X
   unfold syncCoroutine
   aesop (add safe apply h, safe apply he) (rule_sets := [Pres]) (config := { terminal := true, useDefaultSimpSet := false, useSimpAll := false, maxRuleApplications := 3000 })
 
-theorem syncPlain_presx (X : LeafY I) {α : Type} (name : String) (body : M (R α)) (hb : Pres I body) :
+theorem syncPlain_presxR (X : LeafYR I) {α : Type} (name : String) (body : M (R α)) (hb : Pres I body) :
     Pres I (syncPlain name body) := by
-  have L := X.toLeaf
+  have L := X.toLeafR
   unfold syncPlain
   aesop (add safe apply hb) (rule_sets := [Pres]) (config := { terminal := true, useDefaultSimpSet := false, useSimpAll := false, maxRuleApplications := 3000 })
 
-theorem setOpt_pres (L : Leaf I) (u : Nat) (k : String) (v : JVal) : Pres I (setOpt u k v) := by
+theorem setOpt_presR (L : LeafR I) (u : Nat) (k : String) (v : JVal) : Pres I (setOpt u k v) := by
   unfold setOpt; presx
 
-theorem setOptBody_pres (L : Leaf I) (u : Nat) (k : String) (v : JVal) (b : Bool) : Pres I (setOptBody u k v b) := by
-  have h := setOpt_pres L
+theorem setOptBody_presR (L : LeafR I) (u : Nat) (k : String) (v : JVal) (b : Bool) : Pres I (setOptBody u k v b) := by
+  have h := setOpt_presR L
   unfold setOptBody
   aesop (add safe apply h) (rule_sets := [Pres]) (config := { terminal := true, useDefaultSimpSet := false, useSimpAll := false, maxRuleApplications := 3000 })
 
@@ -95,7 +108,7 @@ theorem applyAddOptions_pids (l : List (String × JVal)) :
         | (simp only [Option.map_eq_some_iff] at hw1; obtain ⟨n, _, hn⟩ := hw1; rw [← hn])
     · exact absurd h (by simp)
 
-theorem addCore_pres (L : Leaf I) (p : JVal) : Pres I (addCore p) := by
+theorem addCore_presR (L : LeafR I) (p : JVal) : Pres I (addCore p) := by
   unfold addCore
   split <;> dsimp only <;> split
   all_goals first
@@ -110,23 +123,119 @@ theorem addCore_pres (L : Leaf I) (p : JVal) : Pres I (addCore p) := by
            aesop (add safe apply hr) (rule_sets := [Pres]) (config := { terminal := true, useDefaultSimpSet := false, useSimpAll := false, maxRuleApplications := 3000 }))
     | presx
 
-theorem runReady1_pres (X : LeafX I) (rec : Rec) (hrec : ∀ t, Pres I (rec t)) (hq : Pres I sigQuit) (r : Ready) :
+theorem runReady1_presR (X : LeafXR I) (rec : Rec) (hrec : ∀ t, Pres I (rec t)) (hq : Pres I sigQuit)
+    (hsc : Pres I stopController) (r : Ready) :
     Pres I (runReady1 rec r) := by
-  have L := X.toLeaf
-  have h := runTopCb_pres X
+  have L := X.toLeafR
+  have h := runTopCb_presR X
   cases r <;> simp only [runReady1] <;>
-  aesop (add safe apply h, safe apply hrec, safe apply hq) (rule_sets := [Pres])
+  aesop (add safe apply h, safe apply hrec, safe apply hq, safe apply hsc) (rule_sets := [Pres])
     (config := { terminal := true, useDefaultSimpSet := false, useSimpAll := false, maxRuleApplications := 3000 })
 
-theorem settleStep_pres (X : LeafX I) (he : ∀ n t, Pres I (exec n t)) (hq : Pres I sigQuit) :
+theorem settleStep_presR (X : LeafXR I) (he : ∀ n t, Pres I (exec n t)) (hq : Pres I sigQuit)
+    (hsc : Pres I stopController) :
     Pres I settleStep := by
-  have L := X.toLeaf
-  have h := runReady1_pres X (exec 100000) (he 100000) hq
+  have L := X.toLeafR
+  have h := runReady1_presR X (exec 100000) (he 100000) hq hsc
   unfold settleStep
   aesop (add safe apply h) (rule_sets := [Pres]) (config := { terminal := true, useDefaultSimpSet := false, useSimpAll := false, maxRuleApplications := 3000 })
 
-/-- slot-insensitive invariants: writer lemmas are enough (everything up to, but not including,
-    the reply path and the event loop) -/
+/-- slot-insensitive invariants: writer lemmas plus the three guarded places are enough (everything
+    up to, but not including, the reply path and the event loop) -/
+theorem SpecCoreR.ofLeafYR (X : LeafYR I)
+    (hsp : ∀ rec, (∀ t, Pres I (rec t)) → ∀ u, Pres I (Circus.Core.spawnProcess rec u))
+    (hst : ∀ u, Pres I (Circus.Core.stopCore u)) (hgs : ∀ u, Pres I (Circus.Core.guardedStop u)) : SpecCoreR I where
+  toLeafR := X.toLeafR
+  deliverTop := deliverTop_presR X
+  newTopNR := fun cbs _ => newTop_presR X cbs
+  addDone := fun tid cb _ => addDoneCallback_presR X tid cb
+  syncCo := fun he name c => syncCoroutine_presxR X he name c []
+  syncSetOpt := fun u k v b => syncPlain_presxR X _ _ (setOptBody_presR X.toLeafR u k v b)
+  syncAdd := fun p => syncPlain_presxR X _ _ (addCore_presR X.toLeafR p)
+  spawnProcess := hsp
+  stopCore := hst
+  guardedStop := hgs
+
+theorem SpecMR.ofLeafXR (X : LeafXR I)
+    (hsp : ∀ rec, (∀ t, Pres I (rec t)) → ∀ u, Pres I (Circus.Core.spawnProcess rec u))
+    (hst : ∀ u, Pres I (Circus.Core.stopCore u)) (hgs : ∀ u, Pres I (Circus.Core.guardedStop u)) : SpecMR I where
+  toSpecCoreR := SpecCoreR.ofLeafYR X.toLeafYR hsp hst hgs
+  emitRep := X.emitRep
+
+theorem SpecR.ofLeafXR (X : LeafXR I)
+    (hsp : ∀ rec, (∀ t, Pres I (rec t)) → ∀ u, Pres I (Circus.Core.spawnProcess rec u))
+    (hst : ∀ u, Pres I (Circus.Core.stopCore u)) (hgs : ∀ u, Pres I (Circus.Core.guardedStop u))
+    (hsc : Pres I Circus.Core.stopController) : SpecR I where
+  toSpecMR := SpecMR.ofLeafXR X hsp hst hgs
+  settleStep := fun he hq => settleStep_presR X he hq hsc
+  stopController := hsc
+
+/-- … in particular when the status write and `spawnAdopt` are harmless anywhere -/
+theorem SpecCoreR.ofWriters (X : LeafYR I) (hst : ∀ u, Pres I (setStatus u .stopped))
+    (hsa : ∀ u w, Pres I (Circus.Core.spawnAdopt u w)) : SpecCoreR I :=
+  SpecCoreR.ofLeafYR X (spawnProcess_of X.toLeafR hsa (fun cbs _ => newTop_presR X cbs))
+    (stopCore_of X.toLeafW hst) (guardedStop_of hst)
+
+theorem SpecMR.ofWriters (X : LeafXR I) (hst : ∀ u, Pres I (setStatus u .stopped))
+    (hsa : ∀ u w, Pres I (Circus.Core.spawnAdopt u w)) : SpecMR I where
+  toSpecCoreR := SpecCoreR.ofWriters X.toLeafYR hst hsa
+  emitRep := X.emitRep
+
+/-! ### the full structures -/
+
+theorem LeafY.toLeafYR (X : LeafY I) : LeafYR I where
+  toLeafR := X.toLeaf.toLeafR
+  setSlot := X.setSlot
+  pushTop := X.pushTop
+  finishTop := X.finishTop
+  topAddCb := X.topAddCb
+  enqueue := X.enqueue
+  dequeue := X.dequeue
+
+theorem LeafX.toLeafXR (X : LeafX I) : LeafXR I where
+  toLeafYR := X.toLeafY.toLeafYR
+  emitRep := X.emitRep
+
+theorem runTopCb_pres (X : LeafX I) (v : Val) (cb : TopCb) : Pres I (runTopCb v cb) :=
+  runTopCb_presR X.toLeafXR v cb
+
+theorem newTop_pres (X : LeafY I) (cbs : List TopCb) : Pres I (newTop cbs) :=
+  newTop_presR X.toLeafYR cbs
+
+theorem deliverCbs_pres (X : LeafY I) (armed : Bool) (v : Val) (cbs : List TopCb) : Pres I (deliverCbs armed v cbs) :=
+  deliverCbs_presR X.toLeafYR armed v cbs
+
+theorem deliverTop_pres (X : LeafY I) (tid : Nat) (v : Val) : Pres I (deliverTop tid v) :=
+  deliverTop_presR X.toLeafYR tid v
+
+theorem addDoneCallback_pres (X : LeafY I) (tid : Nat) (cb : TopCb) : Pres I (addDoneCallback tid cb) :=
+  addDoneCallback_presR X.toLeafYR tid cb
+
+theorem syncCoroutine_presx (X : LeafY I) (he : ∀ n t, Pres I (exec n t)) (name : String) (c : Call) (extra : List TopCb) :
+    Pres I (syncCoroutine name c extra) :=
+  syncCoroutine_presxR X.toLeafYR he name c extra
+
+theorem syncPlain_presx (X : LeafY I) {α : Type} (name : String) (body : M (R α)) (hb : Pres I body) :
+    Pres I (syncPlain name body) :=
+  syncPlain_presxR X.toLeafYR name body hb
+
+theorem setOpt_pres (L : Leaf I) (u : Nat) (k : String) (v : JVal) : Pres I (setOpt u k v) :=
+  setOpt_presR L.toLeafR u k v
+
+theorem setOptBody_pres (L : Leaf I) (u : Nat) (k : String) (v : JVal) (b : Bool) : Pres I (setOptBody u k v b) :=
+  setOptBody_presR L.toLeafR u k v b
+
+theorem addCore_pres (L : Leaf I) (p : JVal) : Pres I (addCore p) :=
+  addCore_presR L.toLeafR p
+
+theorem runReady1_pres (X : LeafX I) (rec : Rec) (hrec : ∀ t, Pres I (rec t)) (hq : Pres I sigQuit) (r : Ready) :
+    Pres I (runReady1 rec r) :=
+  runReady1_presR X.toLeafXR rec hrec hq (stopController_pres X.toLeaf) r
+
+theorem settleStep_pres (X : LeafX I) (he : ∀ n t, Pres I (exec n t)) (hq : Pres I sigQuit) :
+    Pres I settleStep :=
+  settleStep_presR X.toLeafXR he hq (stopController_pres X.toLeaf)
+
 theorem SpecCore.ofLeafY (X : LeafY I) : SpecCore I where
   toLeaf := X.toLeaf
   deliverTop := deliverTop_pres X
